@@ -215,6 +215,12 @@ def monitor_framing(chk, cases):
                 hit("concurrent_%d.json" % i, c, "frame differs/reordered/duplicated: " + c["violations"][0])
             elif not c["complete"]:
                 hit("concurrent_%d.json" % i, c, "concurrent senders: %d of %d messages arrived" % (c["received"], c["expected"]))
+        elif k == "burst":
+            if c["violations"]:
+                hit("burst_%s_%d.json" % (c["variant"], i), c, "frame differs/reordered/duplicated: burst of %d messages from one caller "
+                    "to one healthy peer (queue capacity %d): %s" % (c["n"], c["cap"], c["violations"][0]))
+            elif not c["complete"]:
+                hit("burst_%s_%d.json" % (c["variant"], i), c, "burst: %d of %d messages arrived" % (c["received"], c["n"]))
         elif k == "faulty":
             if c["violations"]:
                 hit("faulty_%d.json" % i, c, "peer %d %s: %s" % (c["bad"], c["mode"], c["violations"][0]))
@@ -249,7 +255,7 @@ def nontrivial(c):
         return c["or"].get("um") is not None
     if k == "dec":
         return len(c["frames"]) > 0 or c["origin"] in ("oversize", "topicmix")
-    if k in ("enc", "enchdr", "decbig", "queue", "conc", "faulty"):
+    if k in ("enc", "enchdr", "decbig", "queue", "conc", "faulty", "burst"):
         return True
     return False
 
@@ -307,7 +313,7 @@ def run(pid, tier, seed):
                                     "differ on this case; the theorems of Props/%s.v rest on it" % pid,
                                mismatching_cases=len(mism), case=slim(c, 4000)), no_input=True)
     ev = [c for c in cases if c["kind"] not in ("mon", "proc")]
-    chk.cov["evaluations"] = len(ev) + sum(c.get("received", 0) for c in cases if c["kind"] in ("conc", "faulty"))
+    chk.cov["evaluations"] = len(ev) + sum(c.get("received", 0) for c in cases if c["kind"] in ("conc", "faulty", "burst"))
     chk.cov["distinct_nontrivial"] = len(set(vlib.canon_hash(c) for c in ev if nontrivial(c)))
     chk.cov["traces_validated_against_impl"] = len(corr)
     hist = collections.Counter()
@@ -324,7 +330,7 @@ def run(pid, tier, seed):
         else:
             hist[k] += 1
     chk.cov["input_distribution"] = dict(hist)
-    chk.cov["loop_scenarios"] = [dict((k, v) for k, v in c.items() if k != "violations") for c in cases if c["kind"] in ("conc", "faulty")]
+    chk.cov["loop_scenarios"] = [dict((k, v) for k, v in c.items() if k != "violations") for c in cases if c["kind"] in ("conc", "faulty", "burst")]
     samples = []
     seen = set()
     for c in ev:
@@ -345,7 +351,8 @@ def run(pid, tier, seed):
         chk.cov["rule"] = ("real writer (remoteParty.send on a TLS connection) and real reader (readMsg): every type/topic-length "
                            "combination x sizes 0,1,31,32,33; sequences of legal frames with every truncation; sizes 2048..limit+1 "
                            "(header bytes + lengths to the model, payload by SHA-256); oversize headers; wrong topic presence; noise of "
-                           "every length 0..40; queue operation sequences on real loopback nodes; concurrent senders; each peer in turn "
+                           "every length 0..40; queue operation sequences on real loopback nodes; concurrent senders; bursts of one caller to one healthy "
+                           "peer exceeding the queue capacity (small and 64 KiB payloads, strict order + exactly once); each peer in turn "
                            "down / stalled / garbling, every scenario in its own process. Non-trivial = at least one frame handed on, "
                            "or a refusal of an oversize / mis-shaped frame; distinct by content. evaluations also counts loopback messages.")
     return chk.finish(extra_assumptions=ASSUME[pid])
